@@ -437,3 +437,23 @@ def parse_case_line(line):
     refs = [] if t[4] == "-" else [bytes.fromhex(x) if x != "e" else b"" for x in t[4].split(",")]
     return {"flags": int(t[1]), "max_cost": int(t[2]), "program": bytes.fromhex(t[3]) if t[3] != "-" else b"", "refs": refs,
             "kind": "replay", "tags": []}
+
+
+def big_redundant_generator(size):
+    """a quoted one-spend generator of EXACTLY `size` bytes in plain serialization whose interned size is tiny:
+    the solution is a list of copies of one 1000-byte atom plus one filler atom.  (q . (((parent (q . ()) 1 solution))))"""
+    parent = bytes(range(32))
+    big = b"\x5a" * 1000
+    def build(k, fill):
+        sol = to_list([big] * k + [b"\xa5" * fill])
+        return ser((Q, (to_list([to_list([parent, (Q, b""), b"\x01", sol])]), b"")))
+    base = len(build(0, 100))
+    k = (size - base) // 1003
+    while k >= 0:
+        fill = 100 + (size - base - k * 1003)
+        if 64 <= fill < 8192:
+            g = build(k, fill)
+            assert len(g) == size, (len(g), size)
+            return g
+        k -= 1
+    raise ValueError(size)
